@@ -77,3 +77,17 @@ def tmpdir():
 
 def rmtree(d):
     shutil.rmtree(d, ignore_errors=True)
+
+
+def read_manifests(pattern):
+    """manifest lines of the kept files; a child that died in a session (reported by the harness itself as a violation of the
+    session) may leave a last, cut-off line behind - it is not a file to verify"""
+    import glob
+    entries = []
+    for mf in sorted(glob.glob(pattern)):
+        for l in open(mf, errors="replace"):
+            try:
+                entries.append(json.loads(l))
+            except ValueError:
+                pass
+    return entries
